@@ -115,9 +115,9 @@ def _const_inputs(d, u):
     return tuple(r)
 
 
-def check_program(prog, name='c01'):
+def _check_once(prog, name='c01'):
     """-> (failures, info).  failure = dict(clause, key, what, observed,
-    expected)."""
+    expected); graph-family keys are provisional (see check_program)."""
     fails = []
     info = {'nontrivial': False, 'unknown_units': []}
 
@@ -144,12 +144,9 @@ def check_program(prog, name='c01'):
                  tname, str(e)[:200]),
              observed='%s in %s' % (tname, site), expected='a definition')
         return fails, info
-    if feats.get('sub_same_neg'):
-        dkey = 'C01.denotation:optimize-sub-a-is-b'
-    elif feats.get('dead_ops'):
-        dkey = 'C01.denotation:dead-code-elimination-breaks-live-units'
-    else:
-        dkey = None
+    info['feats'] = feats
+    dkey = ('C01.denotation:optimize-sub-a-is-b' if feats.get('sub_same_neg')
+            else None)
     try:
         defs = scgf.parse(data)
         if len(defs) != 1:
@@ -265,6 +262,36 @@ def check_program(prog, name='c01'):
                      '%s %d runs at rate %d (outputs %s), its inputs at most at %d'
                      % (u.name, u.index, u.rate, u.outputs, rin),
                      observed=[u.rate, list(u.outputs)], expected=[rin, [rin]])
+    return fails, info
+
+
+DEAD_KEY = 'C01.denotation:dead-code-elimination-breaks-live-units'
+
+
+def prune_dead(prog):
+    """The same program without the nodes no output reaches."""
+    return _renumber(prog, gg.live_nodes(prog))
+
+
+def check_program(prog, name='c01'):
+    """-> (failures, info).  Keys of units/denotation failures are chosen by an
+    experiment on the program itself: if the program has dead code and the
+    same program without its dead nodes passes, the dead code is what breaks
+    it (DEAD_KEY); otherwise the key follows the shape of the live graph."""
+    fails, info = _check_once(prog, name)
+    if any(_family(f) == 'graph' for f in fails) \
+            and len(gg.live_nodes(prog)) < len(prog['nodes']):
+        f2, _ = _check_once(prune_dead(prog), name)
+        if not any(_family(f) in ('graph', 'compile') for f in f2):
+            for f in fails:
+                if _family(f) == 'graph':
+                    f['key'] = DEAD_KEY
+        else:
+            k2 = [f['key'] for f in f2 if _family(f) == 'graph']
+            if k2:
+                for f in fails:
+                    if _family(f) == 'graph':
+                        f['key'] = k2[0]
     return fails, info
 
 
@@ -452,9 +479,9 @@ def _family(f):
     return c.split('.', 1)[1]
 
 
-def shrink(prog, family, key, budget=600):
-    """Greedy: smaller well-formed variants that still fail in the same family
-    (for compile failures: with the same key)."""
+def shrink(prog, key, budget=600):
+    """Greedy: smaller well-formed variants that still fail with the same
+    key."""
     cur = prog
     improved = True
     while improved and budget > 0:
@@ -467,8 +494,7 @@ def shrink(prog, family, key, budget=600):
             if not ok:
                 continue
             fails, _ = check_program(v)
-            if any(_family(f) == family and
-                   (family != 'compile' or f['key'] == key) for f in fails):
+            if any(f['key'] == key for f in fails):
                 cur = v
                 improved = True
                 break
@@ -506,37 +532,28 @@ def main(rep):
             else:
                 tot = rnd
             _merge(tot, res)
-    # violations: smallest candidates of every preliminary key are shrunk
-    # (any failure of the same family counts) and classified afterwards
+    # violations: the smallest candidates of every key, shrunk (same key)
     allfails = {}
     for tot in list(per_scope.values()) + [rnd]:
         for k, lst in tot['fails'].items():
             allfails.setdefault(k, []).extend(lst)
     if allfails:
         _init_sc3()
-    final = {}
-    seen = set()
     for k in sorted(allfails):
         lst = sorted(allfails[k], key=lambda t: (t[0], t[1]))
+        final = []
+        seen = set()
         for size, label, prog, f in lst[:3]:
-            fam = _family(f)
-            small = shrink(prog, fam, f['key'])
+            small = shrink(prog, k)
             if gg.prog_size(small) < size:
                 label += ' (shrunk)'
-            fs, _ = check_program(small)
-            for f2 in fs:
-                if _family(f2) != fam or (fam == 'compile'
-                                          and f2['key'] != f['key']):
-                    continue
-                pk = (f2['key'], gg.prog_key(small))
-                if pk not in seen:
-                    seen.add(pk)
-                    final.setdefault(f2['key'], []).append(
-                        (gg.prog_size(small), label, small, f2))
-                break
-    for k in sorted(final):
-        for size, label, prog, f in sorted(final[k],
-                                           key=lambda t: (t[0], t[1]))[:3]:
+                fs, _ = check_program(small)
+                f = [x for x in fs if x['key'] == k][0]
+            pk = gg.prog_key(small)
+            if pk not in seen:
+                seen.add(pk)
+                final.append((gg.prog_size(small), label, small, f))
+        for size, label, prog, f in sorted(final, key=lambda t: (t[0], t[1])):
             rep.violation(obligation=f['clause'],
                           what='%s  [%s]\n%s' % (f['what'], label,
                                                  gg.render(prog)),
